@@ -352,8 +352,20 @@ pub fn run(tier: Tier) -> Report {
         let inp = scratch.path("g.usage");
         std::fs::write(&inp, text).unwrap();
         let (d, r) = (scratch.path("d.dot"), scratch.path("r.dot"));
-        let _ = std::fs::remove_file(&d);
-        let _ = std::fs::remove_file(&r);
+        // destination history: the previous (often larger) dump is still there, or a long
+        // unrelated file, or nothing
+        match i % 3 {
+            0 => {}
+            1 => {
+                let junk: String = (0..20_000).map(|k| format!("stale {k} }} \" ;\n")).collect();
+                std::fs::write(&d, &junk).unwrap();
+                std::fs::write(&r, &junk).unwrap();
+            }
+            _ => {
+                let _ = std::fs::remove_file(&d);
+                let _ = std::fs::remove_file(&r);
+            }
+        }
         let inv = Invocation::new(vec![format!("--{sn}"), "/dev/null".into(), "--dfa".into(), d.to_string_lossy().to_string(), "--regex".into(), r.to_string_lossy().to_string(), inp.to_string_lossy().to_string()]);
         let res = binrun::run(&inv, &scratch);
         bin += 1;
@@ -381,7 +393,7 @@ pub fn run(tier: Tier) -> Report {
     rep.cov(
         "rule",
         J::s(format!(
-            "exhaustive: all trees <= {k} nodes over V0, the definition / order-sensitive / sharing-biased families, the corpus, and a menu of 19 hot strings (quotes, backslashes, braces, angle brackets, DOT operators, non-ASCII) each as literal, literal inside a word, description, command text and nonterminal name; x 4 shells for --dfa (numbering base differs), bash+zsh for --regex. The dump must parse with the harness's strict DOT parser (graphviz lexer rules); --dfa: exactly one node per state of the compiled automaton named and labelled with the shell's numbering, start/accepting shapes, one labelled edge per transition whose decoded label holds the item's text, description and level, one cluster per within-word automaton numbered as the scripts number them (first use in transition order) with dashed entry/exit edges, no edge that is no transition; --regex: every expected item (position) of the main and of every within-word expression has a labelled node, every edge joins declared nodes. Level B: the files the real binary writes equal the library's bytes. distinct = distinct (grammar, shell)."
+            "exhaustive: all trees <= {k} nodes over V0, the definition / order-sensitive / sharing-biased families, the corpus, and a menu of 19 hot strings (quotes, backslashes, braces, angle brackets, DOT operators, non-ASCII) each as literal, literal inside a word, description, command text and nonterminal name; x 4 shells for --dfa (numbering base differs), bash+zsh for --regex. The dump must parse with the harness's strict DOT parser (graphviz lexer rules); --dfa: exactly one node per state of the compiled automaton named and labelled with the shell's numbering, start/accepting shapes, one labelled edge per transition whose decoded label holds the item's text, description and level, one cluster per within-word automaton numbered as the scripts number them (first use in transition order) with dashed entry/exit edges, no edge that is no transition; --regex: every expected item (position) of the main and of every within-word expression has a labelled node, every edge joins declared nodes. Level B: the files the real binary writes equal the library's bytes, whether the destination is new, holds the previous dump or holds a long unrelated file. distinct = distinct (grammar, shell)."
         )),
     );
     rep.cov("exhaustive", J::Bool(true));
